@@ -1,5 +1,5 @@
 import BobEM.Model.FA
-import BobEM.Lemmas.Real
+import BobEM.Lemmas.RealLinAlg
 import BobEM.Lemmas.LinGauss
 
 /-! Identification of the concrete FA kernel (sums over components and features, `LinAlg.inv`)
@@ -7,7 +7,6 @@ with the abstract linear-Gaussian model (rows κ = Fin C × Fin D, Mathlib's mat
 
 open Matrix Finset BobEM BobEM.FA
 
-noncomputable instance : LinAlg ℝ := ⟨fun n A => ((Matrix.of A)⁻¹ : Matrix (Fin n) (Fin n) ℝ)⟩
 
 variable {C D rU rV : ℕ}
 
